@@ -135,7 +135,7 @@ fn slotwise(acc: &mut Acc, w: &[u32]) {
     if !ok {
         match confirm(judge, Case::w32(&format!("{}.shift_slotwise", AnyHand::size_name(n)), w)) {
             Some(v) => acc.violate(v),
-            None => monitor::machinery_fail("C08 slot-wise mismatch not reproduced"),
+            None => super::unreproduced("C08 slot-wise mismatch not reproduced"),
         }
     }
 }
@@ -187,7 +187,7 @@ fn value_space(ctx: &Ctx, rep: &mut Report, n: usize, shifts: usize, relabels: b
             if !matches!(res, Ok(true)) {
                 match confirm(judge, Case::w32(&format!("{}.shift_value", size), &w)) {
                     Some(v) => acc.violate(v),
-                    None => monitor::machinery_fail("C08 value mismatch not reproduced"),
+                    None => super::unreproduced("C08 value mismatch not reproduced"),
                 }
             }
             if relabels {
@@ -203,7 +203,7 @@ fn value_space(ctx: &Ctx, rep: &mut Report, n: usize, shifts: usize, relabels: b
                         ws.push(pn as u32);
                         match confirm(judge, Case::w32(&format!("{}.relabel_value", size), &ws)) {
                             Some(v) => acc.violate(v),
-                            None => monitor::machinery_fail("C08 relabel mismatch not reproduced"),
+                            None => super::unreproduced("C08 relabel mismatch not reproduced"),
                         }
                     }
                 }
